@@ -16,6 +16,7 @@ pub mod irq;
 pub mod runloop;
 pub mod sock;
 pub mod mes;
+pub mod elf;
 
 use crate::hv::e1::Case;
 use crate::hv::known::Known;
@@ -33,6 +34,8 @@ pub fn build(id: &str, tier: Tier, seed: u64, known: &[Known]) -> Option<Prop> {
         "C03" => alu::c03(tier, seed),
         "C09" => tables::c09(tier, seed),
         "C10" => irq::c10(tier, seed),
+        "C11" => elf::c11(tier, seed),
+        "C12" => elf::c12(tier, seed),
         "C13" => runloop::c13(tier, seed),
         "C14" => mes::c14(tier, seed),
         "C16" => ports::c16(tier, seed),
@@ -78,6 +81,7 @@ pub fn replay_other(prop: &str, doc: &serde_json::Value, path: &std::path::PathB
         Some("c13") => runloop::replay_c13(&v["case"]),
         Some("c18") => sock::replay_c18(&v["case"]),
         Some("c14") => mes::replay_c14(&v["case"]),
+        Some("elf") => elf::replay_elf(&v["case"]),
         other => {
             println!("no replay handler for engine {:?} (property {})", other, prop);
             return 2;
